@@ -206,6 +206,22 @@ Proof.
   match goal with H1 : current_scope c = current_scope c', H2 : current_scope_nx c = current_scope_nx c' |- _ => rewrite H1, H2 end. sm.
 Qed.
 
+(* with_scope reads only the brace positions of its block *)
+Lemma sim_with_scope2 {A} s b b' (f f' : M A) :
+  match b, b' with
+  | Some x, Some y => blk_lparen x = blk_lparen y /\ blk_rparen x = blk_rparen y
+  | None, None => True
+  | _, _ => False
+  end -> SimM f f' -> SimM (with_scope s b f) (with_scope s b' f').
+Proof.
+  intros Hb Hf. unfold with_scope. apply sim_get_bind; intros c c' H. same_core H.
+  apply sim_bind; [sm|intro].
+  apply sim_bind; [destruct b, b'; try contradiction; [destruct Hb as [-> _]; apply sim_scope_symbol|apply sim_ret]|intro].
+  apply sim_finally; [exact Hf|].
+  apply sim_bind; [destruct b, b'; try contradiction; [destruct Hb as [_ ->]; apply sim_scope_symbol|apply sim_ret]|intro].
+  match goal with H1 : current_scope c = current_scope c', H2 : current_scope_nx c = current_scope_nx c' |- _ => rewrite H1, H2 end. sm.
+Qed.
+
 Lemma sim_define_segment sp l : SimM (define_segment sp l) (define_segment sp l).
 Proof.
   unfold define_segment. destruct (validate_segment sp l); [|apply sim_fail].
